@@ -71,7 +71,7 @@ def main(argv):
         def run_one(chk):
             try:
                 return mod.run(chk)
-            except framework.LibraryDidNotTerminate as e:
+            except (framework.LibraryDidNotTerminate, framework.LibraryKeepsHanging) as e:
                 # the sweep was inside a call into the library that never returned: that call is the failing input
                 chk.violation('hang0', {'what': 'a call into the library did not return: ' + str(e),
                                         'library_call': getattr(e, 'call', None)}, concrete=True)
